@@ -3,3 +3,4 @@ pub mod cidx;
 pub mod pathkey;
 pub mod verify;
 pub mod wf;
+pub mod seqsem;
